@@ -2,6 +2,7 @@
 from __future__ import annotations
 
 import fcntl
+import ast
 import hashlib
 import json
 import os
@@ -29,6 +30,41 @@ def analyser_digest() -> str:
         h.update(p.name.encode())
         h.update(p.read_bytes())
     return h.hexdigest()[:12]
+
+
+def closure_digest(prog: Program, which: str) -> tuple[str, list[str]]:
+    """digest of what the abstract transition system of one handler is computed from: the (role-canonicalised) syntax
+    trees, with positions, of the handler's module and of every package module it transitively imports names from, plus the
+    qualified names of all top-level definitions of the package (so that a definition added anywhere changes the key)."""
+    start = f"{prog.pkg}.handler.{which}"
+    if start not in prog.modules:
+        raise AnalysisError(f"module {start} not found")
+    seen: list[str] = []
+    todo = [start]
+    while todo:
+        m = todo.pop()
+        if m in seen:
+            continue
+        seen.append(m)
+        parts = m.split(".")
+        for i in range(1, len(parts)):  # the packages on the way (their __init__ is part of name resolution)
+            pk = ".".join(parts[:i])
+            if pk in prog.modules and pk not in seen:
+                seen.append(pk)
+        for q in prog.modules[m].imports.values():
+            q = prog.resolve_export(q)
+            cand = q
+            while cand and cand not in prog.modules:
+                cand = cand.rpartition(".")[0]
+            if cand and cand.startswith(prog.pkg) and cand not in seen:
+                todo.append(cand)
+    h = hashlib.sha256()
+    for m in sorted(seen):
+        h.update(m.encode())
+        h.update(ast.dump(prog.modules[m].tree, include_attributes=True).encode())
+    h.update(repr(sorted(prog.classes) + sorted(prog.functions)).encode())
+    h.update(prog.spacepackets_version.encode())
+    return h.hexdigest()[:16], sorted(seen)
 
 
 @dataclass
@@ -109,7 +145,8 @@ class Ctx:
         if key in self._ats:
             return self._ats[key]
         CACHE.mkdir(parents=True, exist_ok=True)
-        tag = hashlib.sha256(repr((self.prog.digest, analyser_digest(), key)).encode()).hexdigest()[:20]
+        # keyed by what this handler's analysis can consult: a change confined to the other handler's module reuses the entry
+        tag = hashlib.sha256(repr((closure_digest(self.prog, which)[0], analyser_digest(), key)).encode()).hexdigest()[:20]
         variant = fault_table + ("-deep" if follow_undrained else "")
         path = CACHE / f"ats-{which}-{variant}-{tag}.pkl"
         lock = CACHE / f"ats-{which}-{variant}-{tag}.lock"
